@@ -1,0 +1,34 @@
+//go:build verif
+
+package diagnostics
+
+// Contracts for gvc (see /verif/DESIGN.md). Comment-only: this file adds no code to any build.
+
+//@ func NewDiagnostic props C18,C10,C14
+//@ ensures result.Message == message && result.Severity == severity && result.FilePath == filePath && result.Range == rng && result.Code == string(code) && result.Source == "gleece" && len(result.Fixes) == 0
+
+//@ func NewErrorDiagnostic props C18,C10,C14
+//@ ensures result.Message == message && result.Severity == DiagnosticError && result.FilePath == filePath && result.Range == rng && result.Code == string(code) && result.Source == "gleece" && len(result.Fixes) == 0
+
+//@ func NewWarningDiagnostic props C18,C10,C14
+//@ ensures result.Message == message && result.Severity == DiagnosticWarning && result.FilePath == filePath && result.Range == rng && result.Code == string(code) && result.Source == "gleece" && len(result.Fixes) == 0
+
+//@ func NewEntityDiagnostic props C18,C14
+//@ ensures result.EntityKind == context && result.EntityName == name && len(result.Diagnostics) == 0 && len(result.Children) == 0
+
+//@ func EntityDiagnostic.Empty props C18,C14
+//@ ensures result == (len(d.Diagnostics) == 0 && len(d.Children) == 0)
+
+//@ func EntityDiagnostic.AddDiagnostic props C18,C10,C14
+//@ requires d != nil
+//@ modifies d.Diagnostics, elems(d.Diagnostics)
+//@ ensures len(d.Diagnostics) == old(len(d.Diagnostics)) + 1
+//@ ensures d.Diagnostics[old(len(d.Diagnostics))] == diag
+//@ ensures forall(i, 0, old(len(d.Diagnostics)), d.Diagnostics[i] == old(d.Diagnostics[i]))
+
+//@ func EntityDiagnostic.AddDiagnosticIfNotNil props C18,C10,C14
+//@ requires d != nil
+//@ modifies d.Diagnostics, elems(d.Diagnostics)
+//@ ensures implies(diag == nil, len(d.Diagnostics) == old(len(d.Diagnostics)))
+//@ ensures implies(diag != nil, len(d.Diagnostics) == old(len(d.Diagnostics)) + 1 && d.Diagnostics[old(len(d.Diagnostics))] == old(*diag))
+//@ ensures forall(i, 0, old(len(d.Diagnostics)), d.Diagnostics[i] == old(d.Diagnostics[i]))
